@@ -811,6 +811,10 @@ def cases(rng, tier):
         for m4 in ROUND4:                      # round 4, appended last
             out += m4.model_cases(rng, dict(quick=150, thorough=1500, search=0)[tier])
             out += m4.real_cases(rng, dict(quick=60, thorough=600, search=0)[tier])
+        # round 4: directed valid calls at the corners the new index models point at (appended last)
+        from .. import directed4
+        for call in directed4.valid_calls(rng):
+            out.append(dict(kind='sweep', call=call))
     return out
 
 
